@@ -366,4 +366,41 @@ static inline iora_hdr_it hm_hdrs_find(const iora_hdrs *m, const char *lit, size
 }
 /* ghost record of the two callees (replaced by environment contracts in the determineFraming proof; their own contracts are proved above) */
 struct hm_df_ghost { bool te_called, te_ret; const char *te_p; size_t te_n; bool cl_called, cl_throws; uint64_t cl_ret; const char *cl_p; size_t cl_n; } HD;
+
+/* ================= frameResponse ================= */
+/* `std::string &data`, the receive buffer, is the one string of this unit that is MUTATED in place (`data.erase(0, k)`): it is modelled as an object
+ * (p, off, n) - the characters are p[off .. off+n) - so that erase(0,k) moves `off` and the base pointer p never changes (a pointer that is assigned
+ * inside a loop is havocked by the loop contract and cannot be dereferenced afterwards). */
+typedef struct { const char *p; size_t off; size_t n; } fr_str;
+typedef struct { size_t pos; iora_sv decoded; size_t messageEnd; } ChunkState;      /* struct ChunkState (http_client.hpp): pos{0}, decoded, messageEnd{0} */
+#define ChunkState_DEFAULT ((ChunkState){ 0, iora_sv_DEFAULT, 0 })
+#define FR_MAXLEN ((size_t)1 << 40)
+#define FR_RD(d_, i_) ((d_).p[(d_).off + ((i_) <= (d_).n ? (i_) : 0)])
+#define FR_CRLF2_AT(d_, i_) ((FR_RD(d_, i_) == (char)13) & (FR_RD(d_, (i_) + 1) == (char)10) & (FR_RD(d_, (i_) + 2) == (char)13) & (FR_RD(d_, (i_) + 3) == (char)10))
+struct fr_ghost { bool found; size_t he; } FR;          /* the header terminator the (last) successful search returned */
+static inline size_t fr_str_size(const fr_str *d) { return d->n; }
+/* data.find("\r\n\r\n", pos): nondeterministic model with the defining facts; first occurrence instantiated at the arbitrary GQ */
+static inline size_t fr_find_crlf2(const fr_str *d, size_t pos)
+{
+  size_t r = nondet_size_t();
+  IORA_ASSUME(r == IORA_NPOS || (r >= pos && r <= d->n && d->n - r >= 4));
+  IORA_ASSUME(HM_CONTENT(r == IORA_NPOS || FR_CRLF2_AT(*d, r)));
+  IORA_ASSUME(HM_CONTENT(!(GQ >= pos && GQ <= d->n && d->n - GQ >= 4 && (r == IORA_NPOS || GQ < r)) || !FR_CRLF2_AT(*d, GQ)));
+  if (r != IORA_NPOS) { FR.found = 1; FR.he = r; }
+  return r;
+}
+/* data.substr(pos, len): a view (the copy is never modified by this function) */
+static inline iora_sv fr_substr(const fr_str *d, size_t pos, size_t len)
+{
+  IORA_ASSERT(pos <= d->n, "substr: pos <= size() (std::out_of_range otherwise)");
+  iora_sv r; r.p = d->p + d->off + pos; r.n = IORA_MIN(len, d->n - pos);
+  return r;
+}
+/* data.erase(0, k): removes min(k, size()) characters from the front */
+static inline void fr_erase(fr_str *d, size_t pos, size_t k)
+{
+  IORA_ASSERT(pos == 0, "model: erase from the front only");
+  size_t e = IORA_MIN(k, d->n);
+  d->off += e; d->n -= e;
+}
 #endif
